@@ -220,7 +220,31 @@ def neighbour_search(c, fn, kw0, prop, budget_s, seed):
   simple = all(c.params[n] in ("int", "bool") for n in names)
   if not simple:
     return None, 0
-  while time.time() - t0 < budget_s and tries < 4000:
+  # phase 1: small-domain sweep (every parameter in a small range, by increasing maximum), half of the budget
+  ints = [n for n in names if c.params[n] == "int"]
+  if ints and len(names) <= 4:
+    import itertools
+    lo = -1 if kw0 is None else -2
+    for bound in (2, 4, 8, 12, 20, 40):
+      rng = list(range(lo, bound + 1))
+      if len(rng) ** len(ints) > 60000:
+        break
+      for combo in itertools.product(rng, repeat=len(ints)):
+        if max(combo) < bound and bound != 2:
+          continue          # already tried with a smaller bound
+        if time.time() - t0 > budget_s / 2:
+          break
+        for bools in itertools.product([False, True], repeat=len(names) - len(ints)):
+          kw = dict(zip(ints, combo))
+          kw.update(dict(zip([n for n in names if n not in ints], bools)))
+          tries += 1
+          v, d = run_case(c, fn, kw, prop, time_limit=2)
+          if v:
+            return (kw, d), tries
+      if time.time() - t0 > budget_s / 2:
+        break
+  tries0 = tries
+  while time.time() - t0 < budget_s and tries - tries0 < 4000:
     tries += 1
     kw = {}
     for n in names:
